@@ -97,29 +97,43 @@ func mixedInput(rng *rand.Rand, n int) string {
 		case 4:
 			return `|{"bar":` + val(d-1) + "}|"
 		case 5:
-			return val(d-1) + "(=nm)"
+			inner := val(d - 1)
+			if strings.HasSuffix(inner, ")") || strings.HasSuffix(inner, ">") {
+				return inner
+			}
+			return fmt.Sprintf("%s(=n%d)", inner, rng.Intn(1000000))
 		case 6:
 			return "error(" + val(d-1) + ")"
 		default:
 			return "[" + val(d-1) + `,7]`
 		}
 	}
-	var b strings.Builder
-	for i := 0; i < n; i++ {
+	one := func(i int) string {
 		switch rng.Intn(6) {
 		case 0:
-			fmt.Fprintf(&b, "{k:%s}\n", val(2))
+			return fmt.Sprintf("{k:%s}", val(2))
 		case 1:
-			fmt.Fprintf(&b, "{k:%s,s:%q}\n", val(2), fmt.Sprintf("padding-%04d-%s", i, strings.Repeat("x", rng.Intn(40))))
+			return fmt.Sprintf("{k:%s,s:%q}", val(2), fmt.Sprintf("padding-%04d-%s", i, strings.Repeat("x", rng.Intn(40))))
 		case 2:
-			fmt.Fprintf(&b, "{foo:%s,k:%s}\n", leaf(), val(1))
+			return fmt.Sprintf("{foo:%s,k:%s}", leaf(), val(1))
 		case 3:
-			fmt.Fprintf(&b, "{k:%s}(=nm)\n", val(1))
+			return fmt.Sprintf("{k:%s}(=m%d)", val(1), rng.Intn(1000000))
 		case 4:
-			fmt.Fprintf(&b, "{z:%s,k:%s,t:%s}\n", leaf(), val(2), []string{"<int64>", "<{foo:int64}>", "<nm2={k:string}>"}[rng.Intn(3)])
+			return fmt.Sprintf("{z:%s,k:%s,t:%s}", leaf(), val(2), []string{"<int64>", "<{foo:int64}>", "<nm2={k:string}>"}[rng.Intn(3)])
 		default:
-			fmt.Fprintf(&b, "%s\n", val(2))
+			return val(2)
 		}
+	}
+	// keep only values that are valid ZSON and keep every type name bound to one type
+	var b strings.Builder
+	zctx := zed.NewContext()
+	for i := 0; i < n; {
+		v := one(i)
+		if _, err := readValues(zctx, b.String()+v+"\n"); err != nil {
+			continue
+		}
+		b.WriteString(v + "\n")
+		i++
 	}
 	return b.String()
 }
